@@ -481,7 +481,13 @@ impl Boudot2000RangeProof {
         let div_a = divm(&E_a, E_a_1, n);
         let div_b = divm(&E_b, E_b_1, n);
 
-        if E_a_2 == &div_a && E_b_2 == &div_b {
+        // the proofs of square must be about E_a_1 / E_b_1, the square parts of the decomposition checked
+        // here, not about commitments of the prover's choosing
+        if E_a_2 == &div_a
+            && E_b_2 == &div_b
+            && &proof_of_square_a.E == E_a_1
+            && &proof_of_square_b.E == E_b_1
+        {
             let b_s = Self::verify_of_square::<H>(proof_of_square_a, g, h, n)
                 && Self::verify_of_square::<H>(proof_of_square_b, g, h, n);
             let b_li = Self::verify_large_interval_specific::<H>(
